@@ -12,6 +12,7 @@ import (
 	"sort"
 	"strings"
 	"sync"
+	"sync/atomic"
 	"testing"
 	"time"
 )
@@ -87,6 +88,7 @@ var (
 	fIn    = flag.String("in", "", "ops file (run)")
 	fOut   = flag.String("out", "", "output file")
 	fSeq   = flag.Bool("seq", false, "sequential, flush per case")
+	fCaseTO = flag.Int("casetimeout", 60, "seconds of wall time after which a case counts as hung (HANG line, exit status 3)")
 	fScale = flag.Float64("scale", 1, "multiply the number of cases")
 )
 
@@ -210,15 +212,33 @@ func TestHarness(t *testing.T) {
 		}
 		cases := parseCases(lines)
 		results := make([][]string, len(cases))
+		var hung atomic.Int32
+		// a case that does not come back (an endless loop in the implementation) is reported as HANG;
+		// its goroutine cannot be stopped, so the process exits with status 3 once the output is written
+		guarded := func(cs Case) []string {
+			ch := make(chan []string, 1)
+			go func() { ch <- runOne(t, c, cs) }()
+			select {
+			case r := <-ch:
+				return r
+			case <-time.After(time.Duration(*fCaseTO) * time.Second):
+				hung.Add(1)
+				return []string{fmt.Sprintf("HANG the case did not finish within %d s of wall time", *fCaseTO)}
+			}
+		}
 		if *fSeq || c.Serial {
 			for i, cs := range cases {
 				fmt.Fprintln(w, caseHeader(cs))
 				w.Flush()
-				results[i] = runOne(t, c, cs)
+				results[i] = guarded(cs)
 				for _, l := range results[i] {
 					fmt.Fprintln(w, l)
 				}
 				w.Flush()
+			}
+			if hung.Load() > 0 {
+				w.Flush()
+				os.Exit(3)
 			}
 			return
 		}
@@ -230,7 +250,7 @@ func TestHarness(t *testing.T) {
 			go func(i int) {
 				defer wg.Done()
 				defer func() { <-sem }()
-				results[i] = runOne(t, c, cases[i])
+				results[i] = guarded(cases[i])
 			}(i)
 		}
 		wg.Wait()
@@ -239,6 +259,10 @@ func TestHarness(t *testing.T) {
 			for _, l := range results[i] {
 				fmt.Fprintln(w, l)
 			}
+		}
+		if hung.Load() > 0 {
+			w.Flush()
+			os.Exit(3)
 		}
 	default:
 		t.Fatalf("unknown -mode %q", *fMode)
